@@ -48,8 +48,8 @@ CONTEXTS = ["setup", "loop", "fn", "if", "elif", "else", "for", "while", "try", 
 
 def catalog(n: int, in_fn: bool, at_top: bool):
     """-> [(label, [lines])]; n makes the Python names introduced by this copy fresh.
-    in_fn: the statements stand in a user function (no .animate(): listed finding F-C06-lcd-animate-in-function,
-    no measure_distance(): F-C06-fn-uses-ultrasonic)."""
+    in_fn: the statements stand in a user function (no measure_distance(): F-C06-fn-uses-ultrasonic; .animate() is
+    generated there too since the repair recorded as F-C06-lcd-animate-in-function)."""
     E = []
     A = lambda label, *lines: E.append((label, list(lines)))
     # ---------------- Led
@@ -139,11 +139,10 @@ def catalog(n: int, in_fn: bool, at_top: bool):
     A("LCD.glyph i2c", "lcd2.glyph(1, [4, 14, 31, 4, 4, 4, 4, 0])")
     A("LCD.progress lit", "lcd.progress(0, 50)")
     A("LCD.progress rt", 'lcd2.progress(1, v, max_value=1023, width=10, label="L", style="hash")')
-    if not in_fn:
-        A("LCD.animate scroll", 'lcd.animate("scroll", 0, "hello")')
-        A("LCD.animate blink rt", 'lcd2.animate("blink", 1, s, speed_ms=v, loop=False)')
-        A("LCD.animate typewriter", 'lcd.animate("typewriter", 1, "abc", speed_ms=100)')
-        A("LCD.animate bounce", 'lcd2.animate("bounce", 0, s, loop=True)')
+    A("LCD.animate scroll", 'lcd.animate("scroll", 0, "hello")')
+    A("LCD.animate blink rt", 'lcd2.animate("blink", 1, s, speed_ms=v, loop=False)')
+    A("LCD.animate typewriter", 'lcd.animate("typewriter", 1, "abc", speed_ms=100)')
+    A("LCD.animate bounce", 'lcd2.animate("bounce", 0, s, loop=True)')
     # ---------------- serial, core, sensors
     A("mon.write str", 'mon.write("x")')
     A("mon.write int", "mon.write(v)")
